@@ -75,6 +75,7 @@ pub fn is_chain_residue(rows: &[HRow], model: &MResult, msg: &str) -> bool {
 }
 
 pub fn spurious_rejection_verdict(sec: &str, msg: &str, csv: &str, rows: &[HRow], model: &MResult) -> Verdict {
+    if msg.contains("Found non-global split") && msg.contains("near global split") { return known_or_fail("F-04d", format!("history of {sec} contains none of the listed causes but is refused: {msg}\n{csv}")); }
     if is_chain_residue(rows, model, msg) { return known_or_fail("R5", format!("valid history of {sec} rejected because a balance that is exact in rational arithmetic carries 1e-28 of rounding residue after a non-terminating split factor: {msg}\n{csv}")); }
     Verdict::Fail(format!("history of {sec} contains none of the listed causes but was rejected: {msg}\n{csv}"))
 }
